@@ -227,6 +227,12 @@ func neverAcceptedByDesign(c config, e event) bool {
 		if o.Kind == "report" && o.Wrong && c.N == 1 {
 			return true
 		}
+		// an ERC20 redeem addressed (as on Ethereum) to the LockRedeemERC contract can never be RELEASED: the
+		// completing success report fails with "Token not supported" (FINDINGS.md, tolerated: liveness of the
+		// release is not in the statement); with one witness every success report is the completing one
+		if o.Kind == "report" && o.Ext == "EZ" && o.Yes && c.N == 1 {
+			return true
+		}
 		// redeeming 6 ETH: nobody can own more than the 5 ETH of genesis unless a lock was minted
 		if o.Ext == "ZB" && c.Mode == "redeem" {
 			return true
